@@ -80,6 +80,20 @@ CHECKS["C14"] = dict(
          "replay). The third occurrence of the prefix rewrite (watch re-keying) is checked under C02.",
 )
 
+CHECKS["C10"] = dict(
+    engine="sbvm",
+    technique="SMT (z3) over a symbolic execution of PollingEmitter.queue_events + DirectorySnapshot/Diff on three "
+              "symbolic successive trees with a stat/listdir fault at a symbolic path, kind (errno) and poll",
+    level=("model_checking",
+           "All triples of successive trees over the stated path universes, recursive and non-recursive, with one "
+           "ENOENT/ENOTDIR/EACCES fault at any stat or listdir call of either poll, are decided by the solver: each "
+           "poll queues exactly one event per entry of the specified difference of the trees as the walk contract "
+           "observes them, deletions before creations per kind, nothing when equal, and a vanished root gives one "
+           "DirDeletedEvent and a stopped emitter.", "DESIGN.md section 9, C10"),
+    note="Trusted: virtual file system injected through the emitter's own stat/listdir parameters, sequential threading "
+         "models (timed wait on the stop flag = timeout elapsed), VM semantics (native replay), z3.",
+)
+
 NOT_YET = "check not built yet (work in progress; see DESIGN.md section 11 for the order)"
 NA = {}
 
